@@ -14,6 +14,9 @@
 # limitations under the License.
 
 
+from textwrap import indent
+
+
 class AttributeDict(dict):
     """
     A simple utility class that allows accessing dictionary members as attributes.
@@ -47,3 +50,13 @@ class AttributeDict(dict):
 
     def __setattr__(self, attr, value):
         self[attr] = value
+
+
+def get_dynamic_flow_content(flow_id: str, flow_body: str) -> str:
+    """Return the Colang definition of a flow generated at runtime.
+
+    The body is the sequence of instructions; it is turned into an actual flow
+    definition, i.e., `define flow xxx` is added and the body is indented.
+    The same function must be used to validate a generated flow and to start it.
+    """
+    return "define flow " + flow_id + ":\n" + indent(flow_body, "  ")
